@@ -1,4 +1,5 @@
-import Cppcms.C07.Lemmas
+import Cppcms.C07.Refine
+import Cppcms.C07.IfaceLemmas
 /-!
 # C07 — property theorems
 
@@ -241,8 +242,10 @@ example : (step (reach 0 none h₁) (.fetch 1006 k₂)).2 = .miss := by decide
 example : (step (reach 0 none (h₁ ++ [.rise k₁])) (.fetch 1001 k₂)).2 = .miss := by decide
 example : (step (reach 0 none (h₁ ++ [.rise k₂])) (.fetch 1001 k₂)).2 = .miss := by decide
 example : (step (reach 0 none (h₁ ++ [.store 1001 k₁ [3] [] 1010, .rise k₁])) (.fetch 1001 k₂)).2 = .miss := by decide
--- a limit of one entry: the second store evicts the first, the fetch misses although the specification hits
-example : (step (reach 1 none h₁) (.fetch 1001 k₁)).2 = .miss ∧ (specOf 1 none h₁ k₁).isSome = true := by decide
+-- memory pressure evicts the first entry: the fetch misses although the specification hits (`⊑` is strict)
+example :
+    let h := [Op.store 1000 k₁ [1] [] 1010, .store 1000 k₂ [2] [] 1010 none { lowMem := [true] }]
+    (step (reach 0 (some 100) h) (.fetch 1001 k₁)).2 = .miss ∧ (specOf 0 (some 100) h k₁).isSome = true := by decide
 -- hypotheses of `live_entry_always_found` are satisfiable
 example : (∀ op ∈ h₁, op.quiet) ∧ (∀ op ∈ [Op.fetch 1001 k₁], op.invalidates k₂ (ownTrigs k₂ [t₁, k₁]) = false) := by
   refine ⟨?_, by decide⟩
@@ -253,5 +256,139 @@ example : (∀ op ∈ h₁, op.quiet) ∧ (∀ op ∈ [Op.fetch 1001 k₁], op.i
 example : stamp (reach 0 (some 100) [.store 1000 k₁ [1] [] 1010]) (.store 1000 k₁ [2] [] 1010 none { copyFails := true }) = none := by
   decide
 example : Inv (reach 2 none h₁) := inv_reachable 2 none h₁
+
+/-! ## trigger recording through `cache_interface` (model `Iface.lean`)
+
+`recorded st op` are the triggers an operation records for the page under construction:
+`add_trigger t` → `t`; a `fetch_frame`/`fetch_data` that hits (and is not `notriggers`) → all
+triggers of the fetched entry (its own key included); `store_frame`/`store_data` (not
+`notriggers`) → the given triggers and the key; `store_page k` → `k`. -/
+
+/-- interface over an empty cache -/
+abbrev iinit (limit : Nat) (sl : Option Nat) : IState := { cache := State.init limit sl }
+
+theorem page_run_mono (st : IState) (ops : List IOp) (hops : ∀ o ∈ ops, ∀ (_ : o = IOp.reset), False) {t : Key}
+    (h : t ∈ st.page) : t ∈ (irun st ops).page := by
+  induction ops generalizing st with
+  | nil => exact h
+  | cons o ops ih =>
+    rw [irun_cons]
+    exact ih _ (fun o' ho' => hops o' (by simp [ho'])) (page_mono st o (hops o (by simp)) h)
+
+/-- **Triggers recorded while a page is being built are attached when it is stored.**
+Whatever any operation recorded since the last `reset()` — also the triggers inherited from a
+cached frame that was fetched — is in the trigger set that `store_page` hands to the back-end
+(`cache_module_->store(r_key, body, triggers_, …)`), together with the page's own key. -/
+theorem page_triggers_attached (st : IState) (pre post : List IOp) (op : IOp) (t : Key)
+    (hrec : t ∈ recorded (irun st pre) op) (hpost : ∀ o ∈ post, ∀ (_ : o = IOp.reset), False)
+    (now : Time) (k : Key) (body : Val) (timeout : Int) (env : StoreEnv) :
+    let st' := irun st (pre ++ op :: post)
+    ∃ trigs, lower st' (.storePage now k body timeout env)
+        = [Op.store now (pageKey st'.gzip k) body trigs (deadtime now timeout) none env] ∧
+      t ∈ trigs ∧ k ∈ trigs := by
+  intro st'
+  refine ⟨(addTrig1 st' k).page, rfl, ?_, mem_addTrig1_page.mpr (Or.inl rfl)⟩
+  apply mem_addTrig1_page.mpr; right
+  have : st' = irun (istep (irun st pre) op).1 post := by
+    simp only [st', irun_append, irun_cons]
+  rw [this]
+  exact page_run_mono _ post hpost (recorded_in_page _ op hrec)
+
+theorem recorder_run (st : IState) (id : Nat) (ops : List IOp) {l : List Key} (hl : recOf st id = some l)
+    (hops : ∀ o ∈ ops, (∀ (_ : o = IOp.attach id), False) ∧ (∀ (_ : o = IOp.detach id), False)) :
+    ∃ l', recOf (irun st ops) id = some l' ∧ (∀ x ∈ l, x ∈ l') ∧
+      ∀ a o b, ops = a ++ o :: b → ∀ t ∈ recorded (irun st a) o, t ∈ l' := by
+  induction ops generalizing st l with
+  | nil => exact ⟨l, hl, fun x hx => hx, by intro a o b e; simp at e⟩
+  | cons o ops ih =>
+    obtain ⟨l1, e1, m1, r1⟩ := recorder_step st o id hl (hops o (by simp))
+    obtain ⟨l2, e2, m2, r2⟩ := ih (istep st o).1 e1 (fun o' ho' => hops o' (by simp [ho']))
+    refine ⟨l2, by rw [irun_cons]; exact e2, fun x hx => m2 x (m1 x hx), ?_⟩
+    intro a o' b e t ht
+    cases a with
+    | nil =>
+      simp only [List.nil_append, List.cons.injEq] at e
+      obtain ⟨e1', _⟩ := e
+      subst e1'
+      exact m2 t (r1 t ht)
+    | cons o'' a =>
+      simp only [List.cons_append, List.cons.injEq] at e
+      obtain ⟨e1', e2'⟩ := e
+      subst e1'
+      exact r2 a o' b e2' t (by simpa [irun_cons] using ht)
+
+/-- **A `triggers_recorder` collects every trigger recorded in its scope**, however other
+recorders are attached or detached meanwhile (nesting): between its construction and its
+`detach()`, whatever any operation records is in the set `detach()` returns. -/
+theorem recorder_collects (st : IState) (id : Nat) (a b : List IOp) (op : IOp) (t : Key)
+    (hrec : t ∈ recorded (irun st (IOp.attach id :: a)) op)
+    (hscope : ∀ o ∈ a ++ op :: b, (∀ (_ : o = IOp.attach id), False) ∧ (∀ (_ : o = IOp.detach id), False)) :
+    ∃ l, (istep (irun st (IOp.attach id :: (a ++ op :: b))) (.detach id)).2 = .detached l ∧ t ∈ l := by
+  have h0 : recOf (istep st (.attach id)).1 id = some [] := by
+    simp [istep, recOf]
+  obtain ⟨l, e, _, r⟩ := recorder_run (istep st (.attach id)).1 id (a ++ op :: b) h0 hscope
+  refine ⟨l, ?_, r a op b rfl t (by simpa [irun_cons] using hrec)⟩
+  have hd : ∀ st' : IState, (istep st' (.detach id)).2 = .detached ((recOf st' id).getD []) := fun _ => rfl
+  rw [irun_cons, hd, e]; rfl
+
+theorem fetchPage_miss_of_backend (st : IState) (now : Time) (k : Key) (gz : Bool)
+    (h : (step st.cache (.fetch now (pageKey gz k))).2 = .miss) : (istep st (.fetchPage now k gz)).2 = .miss := by
+  simp only [istep]
+  cases hs : step st.cache (Op.fetch now (pageKey gz k)) with
+  | mk c o =>
+    rw [hs] at h
+    simp only at h
+    subst h
+    rfl
+
+/-- **Raising a recorded trigger invalidates every page that depended on it.**
+A page stored by `store_page` whose trigger set `triggers_` contained `t` at that moment (by
+`page_triggers_attached`: anything recorded while it was built) — or `t` is the page's key — is
+gone after `rise t`: `fetch_page` misses, as long as the page is not stored again. -/
+theorem rise_invalidates_dependants (limit : Nat) (sl : Option Nat) (pre p1 p2 : List IOp)
+    (now now' : Time) (k t : Key) (body : Val) (timeout : Int) (env : StoreEnv)
+    (ht : t = k ∨ t ∈ (irun (iinit limit sl) pre).page) :
+    let stp := irun (iinit limit sl) pre
+    let st1 := (istep stp (.storePage now k body timeout env)).1
+    let rk := pageKey stp.gzip k
+    (∀ op ∈ lowerRun st1 p1, op.isStoreOf rk = false) →
+    (∀ op ∈ lowerRun (istep (irun st1 p1) (.rise t)).1 p2, op.isStoreOf rk = false) →
+    (istep (irun (iinit limit sl) (pre ++ IOp.storePage now k body timeout env :: (p1 ++ IOp.rise t :: p2)))
+      (.fetchPage now' k stp.gzip)).2 = .miss := by
+  intro stp st1 rk h1 h2
+  apply fetchPage_miss_of_backend
+  rw [irun_cache]
+  have hl : lowerRun (iinit limit sl) (pre ++ IOp.storePage now k body timeout env :: (p1 ++ IOp.rise t :: p2))
+      = lowerRun (iinit limit sl) pre ++
+          Op.store now rk body (addTrig1 stp k).page (deadtime now timeout) none env ::
+            (lowerRun st1 p1 ++ Op.rise t :: lowerRun (istep (irun st1 p1) (.rise t)).1 p2) := by
+    rw [lowerRun_append]
+    simp only [lowerRun, lower, List.cons_append, List.nil_append]
+    rw [lowerRun_append]
+    simp only [lowerRun, lower, List.cons_append, List.nil_append]
+    rfl
+  rw [hl]
+  have htr : t = rk ∨ t ∈ (addTrig1 stp k).page := Or.inr (mem_addTrig1_page.mpr ht)
+  exact miss_after_rise_of_any_trigger limit sl _ _ _ now now' rk t body _ _ none env htr h1 h2
+
+-- non-vacuity: a page that fetched a cached frame inherits the frame's trigger
+private def frame : Key := [102]
+private def pg : Key := [112]
+private def ih₁ : List IOp :=
+  [.store 1000 frame [1] [t₁] 60 true,   -- a frame depending on trigger t₁, stored earlier (not recorded: notriggers)
+   .reset,
+   .fetchPage 1001 pg false,             -- page not cached yet
+   .fetch 1001 frame false]              -- building the page: the cached frame is used
+example : (irun (iinit 0 none) ih₁).page = [t₁, frame] := by decide
+example : t₁ ∈ recorded (irun (iinit 0 none) (ih₁.take 3)) (.fetch 1001 frame false) := by decide
+example :
+    let h := ih₁ ++ [.storePage 1001 pg [2] 60]
+    (istep (irun (iinit 0 none) h) (.fetchPage 1002 pg false)).2 = .hit [2] ∧
+    (istep (irun (iinit 0 none) (h ++ [.rise t₁])) (.fetchPage 1002 pg false)).2 = .miss := by decide
+-- nested recorders: the inner one sees only its scope, the outer one everything
+example :
+    let h := [IOp.attach 1, .addTrigger [1], .attach 2, .addTrigger [2], .detach 2, .addTrigger [3]]
+    (istep (irun (iinit 0 none) h) (.detach 1)).2 = .detached [[3], [2], [1]] ∧
+    (istep (irun (iinit 0 none) (h.take 4)) (.detach 2)).2 = .detached [[2]] := by decide
 
 end Cppcms.C07.Props
